@@ -24,7 +24,7 @@ ASSUME = [
     'pattern characters: one character position at a time is a symbolic 8-bit code (all other characters concrete), so every alias class of every position is covered by forking; characters interact only by position',
     'STIL semantics oracle in this file: first shifted character <-> cell nearest scan-out; loads inverted by the markers between scan-in and the cell, unloads by those between the cell and scan-out; unknown / unassigned not inverted '
     '(compared modulo {X,-}); N in STIL means "-" ; launch-on-capture value = transition(loaded value, 2-valued next state of the netlist) per flip-flop and transition(launch, capture) per input, pulses count as their settled value',
-    'launch-on-capture patterns are generated with clock pulses in launch and capture (the standard flow) and without launch pulse (state unchanged); capture without pulse is outside the generated family',
+    'launch-on-capture flows: pulses in launch and capture (standard), no launch pulse, no launch call, launch pulse without capture pulse (state unchanged; primary-input values of the second vector left open)',
 ]
 
 SRC = '''module m(si, ck, a, b, so, z, y); input si, ck, a, b; output so, z, y; wire q1, q2, q3, q4, n1;
@@ -32,8 +32,13 @@ SRC = '''module m(si, ck, a, b, so, z, y); input si, ck, a, b; output so, z, y; 
  XOR2X1 g0(.IN1(q1), .IN2(a), .Q(n1)); AND2X1 g1(.IN1(b), .IN2(q3), .Q(z)); NBUFFX2 g2(.INP(q3), .Z(so)); NOR2X1 g3(.IN1(q4), .IN2(a), .QN(y)); endmodule'''
 
 
-def circuit():
-    c = verilog.parse(SRC, tlib=techlib.SAED90)
+SRC2 = '''module m(b, so, a, z, si, y, ck); input si, ck, a, b; output so, z, y; wire q1, q2, q3, q4, n1;
+ DFFX1 f3(.D(q2), .CLK(ck), .Q(q3), .QN(q4)); DFFX1 f1(.D(si), .CLK(ck), .Q(q1)); DFFX1 f2(.D(n1), .CLK(ck), .Q(q2));
+ XOR2X1 g0(.IN1(q1), .IN2(a), .Q(n1)); AND2X1 g1(.IN1(b), .IN2(q3), .Q(z)); NBUFFX2 g2(.INP(q3), .Z(so)); NOR2X1 g3(.IN1(q4), .IN2(a), .QN(y)); endmodule'''
+
+
+def circuit(variant=0):
+    c = verilog.parse(SRC2 if variant else SRC, tlib=techlib.SAED90)
     c.resolve_tlib_cells(techlib.SAED90)
     return c
 
@@ -61,7 +66,7 @@ def cases(tier):
             for pi_order in (['si', 'ck', 'a', 'b'], ['b', 'a', 'ck', 'si']):
                 for po_order in (['so', 'z', 'y'], ['y', 'so', 'z']):
                     if tier == 'quick' and (pi_order[0] == 'b') != (po_order[0] == 'y'): continue
-                    for seq in ('sa', 'loc', 'loc-nolaunch', 'mixed'):
+                    for seq in ('sa', 'loc', 'loc-nolaunch', 'mixed', 'loc-nocapture'):
                         C.append((lay, markers, pi_order, po_order, seq))
     return C
 
@@ -117,8 +122,8 @@ def default_strings(case, rng):
             s_ = [rng.choice('01') for _ in pi_order]
             s_[clk] = 'P' if pulse else '0'
             return ''.join(s_)
-        S[('cpi', p)] = pi(seq != 'sa')
-        S[('lpi', p)] = pi(flow(seq, p) == 'loc')
+        S[('cpi', p)] = pi(seq not in ('sa', 'loc-nocapture'))
+        S[('lpi', p)] = pi(flow(seq, p) in ('loc', 'loc-nocapture'))
         S[('cpo', p)] = ''.join(rng.choice('LHXN') for _ in po_order)
         S[('lpo', p)] = ''.join(rng.choice('LHX') for _ in po_order)
     return S
@@ -191,10 +196,10 @@ def expected_loc(case, S, c, code):
         cap = ref2.Ref2(c, assign, 0, 1).captured()
         for i, n in enumerate(sn):
             if n.name in init:
-                if fl == 'loc': nxt = None if unk else (3 if cap[i] & 1 else 0)
+                if fl == 'loc': nxt = None if unk else (3 if cap[i] & 1 else 0)       # launch and capture pulse: the state element takes the simulated next state
                 else: nxt = init[n.name]                           # no launch pulse / no launch call: the state does not change
                 out[pos[n.name]][p] = None if nxt is None else trans(init[n.name], nxt)
-        for name in pi_order: out[pos[name]][p] = trans(ipi[name], cpi[name])
+        for name in pi_order: out[pos[name]][p] = trans(ipi[name], cpi[name]) if fl != 'loc-nocapture' else None      # without capture pulse the input values of the second vector are left open
         for name in po_order: out[pos[name]][p] = 'PO'
     return out
 
@@ -205,7 +210,7 @@ def same_mod_unknown(a, b):
     return int(a) == int(b) or (int(a) in (1, 2) and int(b) in (1, 2))
 
 
-def run_case(case, S, c, symkey=None, eng=None):
+def run_case(case, S, c, symkey=None, eng=None, also=()):
     """real StilFile on the strings (possibly with one symbolic character) -> problem or None"""
     args, npat = build_ir(case, S)
     sf = StilFile(*args)
@@ -220,29 +225,30 @@ def run_case(case, S, c, symkey=None, eng=None):
             if eng.valid(z3.Or([ch.e == ord(x) for x in chars])): return k
         return 1
     seq = case[4]
-    try:
-        # the real functions first: their forks determine the class of the symbolic character on this path
-        t = sf.tests(c)
-        r = sf.responses(c)
-        l = sf.tests_loc(c) if seq != 'sa' else None
-    except (eng_mod.Infeasible, EngineUnknown): raise
-    except Exception as e:
-        return f'{type(e).__name__}: {e}'
-    interface, pos, tests, resp, lay_m = expected(case, S, c, code)
-    if t is not None:
-        if t.shape != (len(interface), npat): return f'tests() shape {t.shape}'
+    for cc in [c] + list(also):             # the same StilFile object serves several circuits one after the other
+        try:
+            # the real functions first: their forks determine the class of the symbolic character on this path
+            t = sf.tests(cc)
+            r = sf.responses(cc)
+            l = sf.tests_loc(cc) if seq != 'sa' else None
+        except (eng_mod.Infeasible, EngineUnknown): raise
+        except Exception as e:
+            return f'{type(e).__name__}: {e}'
+        interface, pos, tests, resp, lay_m = expected(case, S, cc, code)
+        tag = '' if cc is c else 'second circuit with the same StilFile object: '
+        if t.shape != (len(interface), npat): return f'{tag}tests() shape {t.shape}'
         for i in range(len(interface)):
             for p in range(npat):
-                if int(t[i, p]) != int(tests[i][p]): return f'tests(): {interface[i].name} pattern {p} = {int(t[i, p])}, STIL semantics give {tests[i][p]} (stimuli are compared exactly: unknown and unassigned are not inverted)'
-    if r.shape != (len(interface), npat): return f'responses() shape {r.shape}'
-    for i in range(len(interface)):
-        for p in range(npat):
-            if not same_mod_unknown(r[i, p], resp[i][p]): return f'responses(): {interface[i].name} pattern {p} = {int(r[i, p])}, STIL semantics give {resp[i][p]}'
-    if l is not None:
-        el = expected_loc(case, S, c, code)
+                if int(t[i, p]) != int(tests[i][p]): return f'{tag}tests(): {interface[i].name} pattern {p} = {int(t[i, p])}, STIL semantics give {tests[i][p]} (stimuli are compared exactly: unknown and unassigned are not inverted)'
+        if r.shape != (len(interface), npat): return f'{tag}responses() shape {r.shape}'
         for i in range(len(interface)):
             for p in range(npat):
-                if not same_mod_unknown(l[i, p], el[i][p]): return f'tests_loc(): {interface[i].name} pattern {p} = {int(l[i, p])}, STIL semantics give {el[i][p]}'
+                if not same_mod_unknown(r[i, p], resp[i][p]): return f'{tag}responses(): {interface[i].name} pattern {p} = {int(r[i, p])}, STIL semantics give {resp[i][p]}'
+        if l is not None:
+            el = expected_loc(case, S, cc, code)
+            for i in range(len(interface)):
+                for p in range(npat):
+                    if not same_mod_unknown(l[i, p], el[i][p]): return f'{tag}tests_loc(): {interface[i].name} pattern {p} = {int(l[i, p])}, STIL semantics give {el[i][p]}'
     return None
 
 
@@ -254,7 +260,7 @@ def case_job(job):
     S0 = default_strings(case, rng)
     data0 = {'mode': 'ir', 'case': [[list(ch[:2]) + [ch[2], ch[3]] for ch in case[0]], list(case[1]), case[2], case[3], case[4]], 'seed': seed}
     # concrete run first (all characters as generated)
-    p0 = run_case(case, S0, c)
+    p0 = run_case(case, S0, c, also=[circuit(1)])
     rep.counts['concolic_runs'] += 1
     found = []
     if p0: found.append((p0, None))
@@ -302,7 +308,7 @@ def replay_ir(data):
         key, idx, ch = tuple(data['sub'][0]), data['sub'][1], data['sub'][2]
         key = tuple(key)
         S[key] = S[key][:idx] + ch + S[key][idx + 1:]
-    p = run_case(case, S, c)
+    p = run_case(case, S, c, also=[circuit(1)])
     return bool(p), str(p)
 
 
